@@ -569,7 +569,10 @@ fn collect_incn_files(path: &Path) -> Vec<PathBuf> {
         }
     } else if path.is_dir() {
         if let Ok(entries) = fs::read_dir(path) {
-            for entry in entries.flatten() {
+            // Directory iteration order is host state; sort so that messages come out in the same order everywhere.
+            let mut entries: Vec<_> = entries.flatten().collect();
+            entries.sort_by_key(|e| e.file_name());
+            for entry in entries {
                 let entry_path = entry.path();
                 if entry_path.is_dir() {
                     let name = entry_path.file_name().and_then(|n| n.to_str()).unwrap_or("");
